@@ -41,32 +41,33 @@ Proof. intros V lat sync0 cap ms c Hc. exact (no_deadlock V lat false true sync0
 Print Assumptions C11_no_deadlock.
 
 (* Any number of writers (Writers.v): main sends every message to writers 0..k-1 in turn over bounded
-   channels, closes all channels, waits for every writer (rtcmfilter's WaitGroup; the wait is in the
+   channels - buffered, or unbuffered (sync i: after the send main waits until the item has been taken) -
+   closes all channels, waits for every writer (rtcmfilter's WaitGroup; the wait is in the
    program only if the fact waits_rtcmfilter, regenerated from the source, says the code waits) and
    returns; each writer loops receive - latency - write and signals when its channel is closed.
    For every k, every message list, all capacities, latencies and schedules: in every reachable
    configuration in which main has returned, every writer has written exactly the messages, in
    order.  (Writers.flushed_at_return proves this for ANY straight-line main program that never
    sends to a writer after closing its channel and waits for every writer before returning.) *)
-Theorem C11_k_writers : forall (V : Type) lat cap k (msgs : list V) c,
-  Writers.reach V lat cap (Writers.init V (Writers.std_prog_opt V waits_rtcmfilter k msgs)) c ->
+Theorem C11_k_writers : forall (V : Type) (sync : nat -> bool) lat cap k (msgs : list V) c,
+  Writers.reach V lat cap (Writers.init V (Writers.std_prog_opt V sync waits_rtcmfilter k msgs)) c ->
   Writers.returned V c = true -> forall i, (i < k)%nat -> Writers.wrote V c i = msgs.
-Proof. intros V lat cap k msgs c. exact (Writers.std_flushed_at_return V lat cap k msgs c). Qed.
+Proof. intros V sync lat cap k msgs c. exact (Writers.std_flushed_at_return V sync lat cap k msgs c). Qed.
 Print Assumptions C11_k_writers.
 
 (* and no schedule deadlocks: a configuration in which nothing can move is the one where main has run its
    whole program and every writer 0..k-1 has halted having written the messages *)
-Theorem C11_k_no_deadlock : forall (V : Type) lat cap k (msgs : list V) c, (forall i, (1 <= cap i)%nat) ->
-  Writers.reach V lat cap (Writers.init V (Writers.std_prog V k msgs)) c ->
+Theorem C11_k_no_deadlock : forall (V : Type) (sync : nat -> bool) lat cap k (msgs : list V) c, (forall i, (1 <= cap i)%nat) ->
+  Writers.reach V lat cap (Writers.init V (Writers.std_prog V sync k msgs)) c ->
   (forall c', ~ Writers.step V lat cap c c') ->
   Writers.ops V c = [] /\ forall i, (i < k)%nat -> Writers.w V c i = Writers.WHalt V /\ Writers.wrote V c i = msgs.
 Proof. exact Writers.std_no_deadlock. Qed.
 Print Assumptions C11_k_no_deadlock.
 
-(* Non-vacuity: two writers, two messages, latency 1, capacity 1 - a complete schedule after which main has
+(* Non-vacuity: two writers on unbuffered channels, two messages, latency 1 - a complete schedule after which main has
    returned and both writers hold both messages. *)
 Example C11_k_example :
-  exists c, Writers.reach nat 1%nat (fun _ => 1%nat) (Writers.init nat (Writers.std_prog nat 2%nat [7; 8]%nat)) c /\
+  exists c, Writers.reach nat 1%nat (fun _ => 1%nat) (Writers.init nat (Writers.std_prog nat (fun _ => true) 2%nat [7; 8]%nat)) c /\
             Writers.returned nat c = true /\ Writers.wrote nat c 0%nat = [7; 8]%nat /\ Writers.wrote nat c 1%nat = [7; 8]%nat.
 Proof. exact NetExamples.writers_example. Qed.
 
